@@ -1,13 +1,15 @@
 (* C10 — Wishbone-to-CSR bridge performs each transfer exactly once, in order, on time.
-   Statements only; proofs live in Proofs/WbCsrBridge.v.  Pure bridge (the CSR side is any
-   environment: r_data is an arbitrary input of the trace); the composition with the CSR multiplexer
-   (atomic_through_mux) is a separate obligation and is NOT stated here.
+   Statements only; proofs live in Proofs/WbCsrBridge.v and Proofs/BridgeMux.v.  First the pure bridge
+   (the CSR side is any environment: r_data is an arbitrary input of the trace); then, in the last
+   part of the file, the bridge composed with the CSR multiplexer (atomic_through_mux).
 
    Conventions: `c` is the hardware configuration (ratio 2^(c_r c), CSR address width, granule width),
    `wf c` only says these three numbers are non-negative; `tr : nat -> inp` is an arbitrary infinite
    input trace; `state_at c tr t` / `out_at c tr t` are the registers / ports in cycle t. *)
 From Coq Require Import ZArith List Bool Lia.
 From Soc Require Import Lib.Bits Model.WbCsrBridge Proofs.WbCsrBridge.
+(* only Required here; Imported where the composition starts (Model.Mux reuses the names cfg, inp, out ...) *)
+From Soc Require Model.Mux Model.MuxSpec Model.BridgeMuxSpec Proofs.BridgeMux.
 Import ListNotations.
 Open Scope Z_scope.
 
@@ -246,4 +248,280 @@ Example C10_nonvacuous_constructor :
   construct {| k_caw := 1; k_cdw := 64; k_dw := None |} =
     Ok {| g_r := 0; g_wb_aw := 1; g_wb_dw := 64; g_gran := 64; g_mm_aw := 1; g_mm_dw := 64;
           g_win_start := 0; g_win_stop := 2; g_win_ratio := 1 |}.
+Proof. vm_compute. repeat split; reflexivity. Qed.
+
+(* ============================================================================================== *)
+(* atomic_through_mux: the bridge in front of a csr.Multiplexer                                   *)
+(* ============================================================================================== *)
+
+(* The composite machine is Model/BridgeMuxSpec.v: the two existing models wired port to port (bridge
+   addr / r_stb / w_stb / w_data -> multiplexer bus; multiplexer r_data -> bridge), one clock.  Nothing
+   new is modelled.  `bc` / `mc` are the bridge / multiplexer configurations, `fits bc mc` says the
+   bridge's granule is the multiplexer's data width, `tr : nat -> cinp` is an arbitrary infinite trace of
+   composite inputs (the Wishbone initiator's signals and every register's element.r_data, per cycle),
+   `wb_out_at` / `elem_out_at` are the Wishbone-side / element-side ports in cycle t.
+
+   Common premises (the held-transfer premise of C10_transfer, on the composite): the bridge half is
+   idle at t0; the initiator holds cyc stb we adr sel dat_w on [t0, t0+R] (`req_held (wb_trace tr)`
+   mentions only these six signals); the addressed word lies inside the CSR address space
+   (`word_in_range`, automatic for a constructed bridge by C10_address_exact); register number k of the
+   multiplexer lies entirely inside the addressed word (`reg_in_word`) and all of ITS granules are
+   selected (`reg_selected`; the select bits of the other granules, which may hit other registers or
+   nothing, are arbitrary).  Nothing is assumed about the register values, about what the other
+   granules of the word hit, about the multiplexer's history before t0, or about the shadow sizes.
+   gf = index within the word of the register's first granule, ge = index after its last one. *)
+Import Model.Mux Model.MuxSpec Model.BridgeMuxSpec Proofs.BridgeMux.
+
+(* WRITE: "write side effects have taken place by the time the acknowledge is seen; multi-granule
+   registers are written atomically".
+   1. gf < ge <= R;
+   2. the register's w_stb is up in cycle t0+ge - the cycle after the granule write to its last
+      address - and in no other cycle of [t0, t0+R+2]; since ge <= R this is strictly before the
+      acknowledge cycle t0+R+1;
+   3. in that cycle its w_data is the concatenation of lanes gf .. ge-1 of dat_w clipped to the
+      register width (`assemble`, read bit by bit by C05_assemble_is_concatenation; closed form below);
+   4. ack = 0 on [t0, t0+R] and 1 in cycle t0+R+1;
+   5. the bridge half is idle again at t0+R+2 (it is idle out of reset, C10_idle_after_reset through
+      C10_composite_decomposes), so the theorem applies again to a back-to-back or later transfer. *)
+Theorem C10_atomic_write_through_mux : forall bc mc tr t0 k r,
+  wf bc -> wf_cfg mc -> fits bc mc ->
+  idle (fst (cstate_at bc mc tr t0)) -> req_held (wb_trace tr) t0 (nratio bc) ->
+  let x := tr t0 in
+  let R := nratio bc in
+  word_in_range bc (x_adr x) ->
+  nth_error (c_regs mc) k = Some r -> reg_in_word bc (x_adr x) r -> reg_selected bc (x_adr x) (x_sel x) r ->
+  x_we x = true -> r_wr r = true ->
+  let gf := Z.to_nat (r_start r - x_adr x * ratio bc) in
+  let ge := Z.to_nat (r_stop r - x_adr x * ratio bc) in
+  (Z.of_nat gf = r_start r - x_adr x * ratio bc /\ Z.of_nat ge = r_stop r - x_adr x * ratio bc /\
+   (gf < ge <= R)%nat) /\
+  (forall j, (j <= R + 2)%nat ->
+     nth_error (o_wstb (elem_out_at bc mc tr (t0 + j))) k = Some (j =? ge)%nat) /\
+  nth_error (o_wdata (elem_out_at bc mc tr (t0 + ge))) k =
+    Some (assemble (c_dw mc) (r_width r) (fun j => lane bc (Z.of_nat gf + j) (x_dat_w x))
+                   (Z.to_nat (reg_len r))) /\
+  (forall j, (j <= R)%nat -> o_ack (wb_out_at bc mc tr (t0 + j)) = false) /\
+  o_ack (wb_out_at bc mc tr (t0 + R + 1)) = true /\
+  idle (fst (cstate_at bc mc tr (t0 + R + 2))).
+Proof. exact atomic_write_through_mux. Qed.
+Print Assumptions C10_atomic_write_through_mux.
+
+(* closed form of clause 3: n lanes starting at lane o, clipped to a width they cover (the memory map
+   gives a register at least ceil(width / data_width) addresses), are the width-bit field of dat_w
+   starting at lane o *)
+Theorem C10_lanes_concat : forall bc o width z n,
+  0 < c_g bc -> 0 <= o -> 0 <= width -> width <= Z.of_nat n * c_g bc ->
+  assemble (c_g bc) width (fun j => lane bc (o + j) z) n = slice (o * c_g bc) width z.
+Proof. exact lanes_concat. Qed.
+Print Assumptions C10_lanes_concat.
+
+(* READ: "multi-granule registers are read atomically".
+   1. gf < ge <= R;
+   2. the register's r_stb (its read side effect) is up in cycle t0+gf - the cycle in which its first
+      granule is presented - and in no other cycle of [t0, t0+R+1];
+   3. in the acknowledge cycle, lane i of dat_r, for EVERY granule i of the register, is word i-gf of
+      the ONE value the register presented in cycle t0+gf, whatever it presents in any other cycle
+      (`word dw width j v` = bits [j*dw, min(width, (j+1)*dw)) of v);
+   4. ack = 0 on [t0, t0+R] and 1 in cycle t0+R+1;
+   5. the bridge half is idle again at t0+R+2 (it is idle out of reset, C10_idle_after_reset through
+      C10_composite_decomposes), so the theorem applies again to a back-to-back or later transfer. *)
+Theorem C10_atomic_read_through_mux : forall bc mc tr t0 k r,
+  wf bc -> wf_cfg mc -> fits bc mc ->
+  idle (fst (cstate_at bc mc tr t0)) -> req_held (wb_trace tr) t0 (nratio bc) ->
+  let x := tr t0 in
+  let R := nratio bc in
+  word_in_range bc (x_adr x) ->
+  nth_error (c_regs mc) k = Some r -> reg_in_word bc (x_adr x) r -> reg_selected bc (x_adr x) (x_sel x) r ->
+  x_we x = false -> r_rd r = true ->
+  let gf := Z.to_nat (r_start r - x_adr x * ratio bc) in
+  let ge := Z.to_nat (r_stop r - x_adr x * ratio bc) in
+  (Z.of_nat gf = r_start r - x_adr x * ratio bc /\ Z.of_nat ge = r_stop r - x_adr x * ratio bc /\
+   (gf < ge <= R)%nat) /\
+  (forall j, (j <= R + 1)%nat ->
+     nth_error (o_rstb (elem_out_at bc mc tr (t0 + j))) k = Some (j =? gf)%nat) /\
+  (forall i, (gf <= i < ge)%nat ->
+     lane bc (Z.of_nat i) (o_dat_r (wb_out_at bc mc tr (t0 + R + 1))) =
+     word (c_dw mc) (r_width r) (Z.of_nat i - Z.of_nat gf)
+          (trunc (r_width r) (nth k (x_rvals (tr (t0 + gf)%nat)) 0))) /\
+  (forall j, (j <= R)%nat -> o_ack (wb_out_at bc mc tr (t0 + j)) = false) /\
+  o_ack (wb_out_at bc mc tr (t0 + R + 1)) = true /\
+  idle (fst (cstate_at bc mc tr (t0 + R + 2))).
+Proof. exact atomic_read_through_mux. Qed.
+Print Assumptions C10_atomic_read_through_mux.
+
+(* The special case the clause is usually read as: the word holds exactly one register, which fills
+   it (`fills_word`), and every granule is selected (`all_selected`).  The write strobe comes in cycle
+   t0+R with w_data = dat_w clipped to the register width; the read strobe comes in cycle t0 and
+   every lane of dat_r is the corresponding word of the value presented in cycle t0. *)
+Theorem C10_atomic_write_whole_word : forall bc mc tr t0 k r,
+  wf bc -> wf_cfg mc -> fits bc mc ->
+  idle (fst (cstate_at bc mc tr t0)) -> req_held (wb_trace tr) t0 (nratio bc) ->
+  let x := tr t0 in
+  let R := nratio bc in
+  word_in_range bc (x_adr x) ->
+  nth_error (c_regs mc) k = Some r -> fills_word bc (x_adr x) r -> all_selected bc (x_sel x) ->
+  x_we x = true -> r_wr r = true -> r_width r <= ratio bc * c_dw mc ->
+  (forall j, (j <= R + 2)%nat ->
+     nth_error (o_wstb (elem_out_at bc mc tr (t0 + j))) k = Some (j =? R)%nat) /\
+  nth_error (o_wdata (elem_out_at bc mc tr (t0 + R))) k = Some (trunc (r_width r) (x_dat_w x)) /\
+  (forall j, (j <= R)%nat -> o_ack (wb_out_at bc mc tr (t0 + j)) = false) /\
+  o_ack (wb_out_at bc mc tr (t0 + R + 1)) = true /\
+  idle (fst (cstate_at bc mc tr (t0 + R + 2))).
+Proof. exact atomic_write_whole_word. Qed.
+Print Assumptions C10_atomic_write_whole_word.
+
+Theorem C10_atomic_read_whole_word : forall bc mc tr t0 k r,
+  wf bc -> wf_cfg mc -> fits bc mc ->
+  idle (fst (cstate_at bc mc tr t0)) -> req_held (wb_trace tr) t0 (nratio bc) ->
+  let x := tr t0 in
+  let R := nratio bc in
+  word_in_range bc (x_adr x) ->
+  nth_error (c_regs mc) k = Some r -> fills_word bc (x_adr x) r -> all_selected bc (x_sel x) ->
+  x_we x = false -> r_rd r = true ->
+  (forall j, (j <= R + 1)%nat ->
+     nth_error (o_rstb (elem_out_at bc mc tr (t0 + j))) k = Some (j =? 0)%nat) /\
+  (forall i, (i < R)%nat ->
+     lane bc (Z.of_nat i) (o_dat_r (wb_out_at bc mc tr (t0 + R + 1))) =
+     word (c_dw mc) (r_width r) (Z.of_nat i) (trunc (r_width r) (nth k (x_rvals x) 0))) /\
+  (forall j, (j <= R)%nat -> o_ack (wb_out_at bc mc tr (t0 + j)) = false) /\
+  o_ack (wb_out_at bc mc tr (t0 + R + 1)) = true /\
+  idle (fst (cstate_at bc mc tr (t0 + R + 2))).
+Proof. exact atomic_read_whole_word. Qed.
+Print Assumptions C10_atomic_read_whole_word.
+
+(* The composite decomposes: its bridge half is the bridge model run over the inputs it actually
+   sees (so every pure-bridge theorem above applies to it, with r_data := the multiplexer's r_data),
+   its multiplexer half is the multiplexer model run over the bridge's CSR-side outputs (so C04/C05
+   apply to it). *)
+Theorem C10_composite_decomposes : forall bc mc tr t,
+  fst (cstate_at bc mc tr t) = B.state_at bc (btr bc mc tr) t /\
+  snd (cstate_at bc mc tr t) = M.state_after mc (M.init mc) (map (mtr bc mc tr) (seq 0 t)) /\
+  wb_out_at bc mc tr t = B.out_at bc (btr bc mc tr) t /\
+  r_data (btr bc mc tr t) = bus_rdata mc (snd (cstate_at bc mc tr t)) /\
+  mtr bc mc tr t = mux_of (B.out_at bc (btr bc mc tr) t) (tr t) /\
+  elem_out_at bc mc tr t = M.out mc (snd (cstate_at bc mc tr t)) (mtr bc mc tr t).
+Proof.
+  intros bc mc tr t. split; [apply fst_cstate|]. split; [apply snd_cstate|].
+  split; [apply wb_out_is_out_at|]. split; [reflexivity|]. split; [apply mtr_eq|reflexivity].
+Qed.
+Print Assumptions C10_composite_decomposes.
+
+Theorem C10_composite_idle_after_reset : forall bc mc tr, idle (fst (cstate_at bc mc tr 0)).
+Proof. intros bc mc tr. split; reflexivity. Qed.
+Print Assumptions C10_composite_idle_after_reset.
+
+(* finite runs of the composite (used in the Example below) are prefixes of the trace semantics *)
+Theorem C10_crun_is_trace : forall bc mc xs d t, (t < length xs)%nat ->
+  nth_error (crun bc mc (cinit mc) xs) t =
+  Some (wb_out_at bc mc (fun n => nth n xs d) t, elem_out_at bc mc (fun n => nth n xs d) t).
+Proof. exact crun_is_out_at. Qed.
+Print Assumptions C10_crun_is_trace.
+
+(* ---------------------------------------------------------------------------------------------- *)
+(* non-vacuity: 8-bit CSR bus behind a 32-bit Wishbone bus (ratio 4); a 24-bit register at CSR     *)
+(* addresses 4..6 and an 8-bit one at address 7 share Wishbone word 1                               *)
+(* ---------------------------------------------------------------------------------------------- *)
+Definition mx_bc : B.cfg := {| c_r := 2; c_caw := 4; c_g := 8 |}.
+Definition mx_r0 : reg := {| r_start := 4; r_stop := 7; r_width := 24; r_rd := true; r_wr := true |}.
+Definition mx_r1 : reg := {| r_start := 7; r_stop := 8; r_width := 8; r_rd := true; r_wr := true |}.
+Definition mx_mc : M.cfg := {| c_dw := 8; c_regs := [mx_r0; mx_r1]; c_Sr := 4; c_Sw := 4 |}.
+Definition cx (c s w : bool) (a se d : Z) (vs : list Z) : cinp :=
+  {| x_cyc := c; x_stb := s; x_we := w; x_adr := a; x_sel := se; x_dat_w := d; x_rvals := vs |}.
+(* cycle 0: cyc without stb; cycles 1..5: a write of 0xAABBCCDD to word 1, all granules selected
+   (t0 = 1); cycle 6: its acknowledge cycle, the initiator already presents a read of word 1, held on
+   [7, 11] (t0 = 7); cycle 12: its acknowledge cycle.  Both registers present a different value in
+   every cycle. *)
+Definition mx_list : list cinp :=
+  [ cx true false false 0 0 0 [1; 2];
+    cx true true true 1 15 0xAABBCCDD [0x101010; 0x20]; cx true true true 1 15 0xAABBCCDD [0x101011; 0x21];
+    cx true true true 1 15 0xAABBCCDD [0x101012; 0x22]; cx true true true 1 15 0xAABBCCDD [0x101013; 0x23];
+    cx true true true 1 15 0xAABBCCDD [0x101014; 0x24];
+    cx true true false 1 15 0 [0x101015; 0x25];
+    cx true true false 1 15 0 [0x111111; 0x31]; cx true true false 1 15 0 [0x222222; 0x32];
+    cx true true false 1 15 0 [0x333333; 0x33]; cx true true false 1 15 0 [0x444444; 0x34];
+    cx true true false 1 15 0 [0x555555; 0x35];
+    cx false false false 0 0 0 [0x666666; 0x36]; cx false false false 0 0 0 [0x777777; 0x37] ].
+Definition mx_tr (n : nat) : cinp := nth n mx_list (cx false false false 0 0 0 []).
+
+Lemma mx_wf : wf_cfg mx_mc.
+Proof.
+  split; [reflexivity|]. split; [cbn; lia|].
+  split; exists 2; (split; [reflexivity|]); (split; [lia|]);
+    cbn [rregs wregs mx_mc c_regs filter mx_r0 mx_r1 r_rd r_wr In]; intros r H;
+    repeat (destruct H as [<-|H]; [vm_compute; discriminate|]); contradiction.
+Qed.
+
+(* every premise of the two theorems holds, for both registers, on this trace *)
+Example C10_mux_nonvacuous_premises :
+  mk_cfg 8 [mx_r0; mx_r1] None = Some mx_mc /\
+  wf mx_bc /\ wf_cfg mx_mc /\ fits mx_bc mx_mc /\ nratio mx_bc = 4%nat /\
+  (* the write, t0 = 1 *)
+  idle (fst (cstate_at mx_bc mx_mc mx_tr 1)) /\ req_held (wb_trace mx_tr) 1 (nratio mx_bc) /\
+  x_we (mx_tr 1) = true /\ word_in_range mx_bc (x_adr (mx_tr 1)) /\
+  (* the read, t0 = 7 *)
+  idle (fst (cstate_at mx_bc mx_mc mx_tr 7)) /\ req_held (wb_trace mx_tr) 7 (nratio mx_bc) /\
+  x_we (mx_tr 7) = false /\ word_in_range mx_bc (x_adr (mx_tr 7)) /\
+  (* both registers lie in word 1 and are selected; neither fills the word *)
+  nth_error (c_regs mx_mc) 0 = Some mx_r0 /\ nth_error (c_regs mx_mc) 1 = Some mx_r1 /\
+  reg_in_word mx_bc 1 mx_r0 /\ reg_in_word mx_bc 1 mx_r1 /\
+  reg_selected mx_bc 1 15 mx_r0 /\ reg_selected mx_bc 1 15 mx_r1.
+Proof.
+  assert (N : nratio mx_bc = 4%nat) by (vm_compute; reflexivity).
+  assert (Hh : forall t0, (t0 = 1 \/ t0 = 7)%nat -> req_held (wb_trace mx_tr) t0 4).
+  { intros t0 [-> | ->]; (split; [reflexivity|]; split; [reflexivity|];
+      intros [|[|[|[|[|j]]]]] Hj; [vm_compute; repeat split; reflexivity ..|lia]). }
+  assert (Hs : forall r, r = mx_r0 \/ r = mx_r1 -> reg_selected mx_bc 1 15 r).
+  { intros r Hr i Hi.
+    assert (Ei : i = 0 \/ i = 1 \/ i = 2 \/ i = 3) 
+      by (destruct Hr as [-> | ->]; unfold ratio in Hi; cbn [mx_r0 mx_r1 r_start r_stop mx_bc c_r] in Hi;
+          change (2 ^ 2) with 4 in Hi; lia).
+    destruct Ei as [-> | [-> | [-> | ->]]]; reflexivity. }
+  rewrite N.
+  split; [vm_compute; reflexivity|]. split; [unfold wf, mx_bc; cbn; lia|]. split; [exact mx_wf|].
+  split; [reflexivity|]. split; [reflexivity|].
+  split; [split; vm_compute; reflexivity|]. split; [apply Hh; auto|]. split; [reflexivity|].
+  split; [vm_compute; split; discriminate|].
+  split; [split; vm_compute; reflexivity|]. split; [apply Hh; auto|]. split; [reflexivity|].
+  split; [vm_compute; split; discriminate|].
+  split; [reflexivity|]. split; [reflexivity|].
+  split; [vm_compute; split; discriminate|]. split; [vm_compute; split; discriminate|].
+  split; apply Hs; auto.
+Qed.
+
+(* The ports of the composite on this trace, per cycle:
+   ((ack, dat_r), (csr addr, r_stb, w_stb, w_data), (mux r_data, elem r_stb, elem w_stb, elem w_data)).
+   WRITE (t0 = 1): register 0 (gf = 0, ge = 3) gets w_stb in cycle 4 with w_data 0xBBCCDD, register 1
+   (gf = 3, ge = 4) in cycle 5 with w_data 0xAA; the acknowledge is in cycle 6.
+   READ (t0 = 7): register 0 gets r_stb in cycle 7, register 1 in cycle 10; in the acknowledge cycle 12
+   dat_r = 0x34111111: lanes 0..2 are the value 0x111111 register 0 presented in cycle 7 (not 0x222222,
+   0x333333 of the cycles in which its 2nd and 3rd granule were read), lane 3 is the value 0x34
+   register 1 presented in cycle 10. *)
+Example C10_mux_nonvacuous_trace :
+  map (fun o => ((o_ack (fst o), o_dat_r (fst o)),
+                 (o_addr (fst o), o_r_stb (fst o), o_w_stb (fst o), o_w_data (fst o)),
+                 (o_rdata (snd o), o_rstb (snd o), o_wstb (snd o), o_wdata (snd o))))
+      (crun mx_bc mx_mc (cinit mx_mc) mx_list) =
+  [ ((false, 0), (0, false, false, 0), (0, [false; false], [false; false], [0; 0]));
+    ((false, 0), (4, false, true, 0xDD), (0, [false; false], [false; false], [0; 0]));
+    ((false, 0), (5, false, true, 0xCC), (0, [false; false], [false; false], [0xDD; 0]));
+    ((false, 0), (6, false, true, 0xBB), (0, [false; false], [false; false], [0xCCDD; 0]));
+    ((false, 0), (7, false, true, 0xAA), (0, [false; false], [true; false], [0xBBCCDD; 0]));
+    ((false, 0), (4, false, false, 0), (0, [false; false], [false; true], [0xBBCCDD; 0xAA]));
+    ((true, 0), (4, false, false, 0), (0, [false; false], [false; false], [0xBBCCDD; 0xAA]));
+    ((false, 0), (4, true, false, 0), (0, [true; false], [false; false], [0xBBCCDD; 0xAA]));
+    ((false, 0), (5, true, false, 0), (0x11, [false; false], [false; false], [0xBBCCDD; 0xAA]));
+    ((false, 0x11), (6, true, false, 0), (0x11, [false; false], [false; false], [0xBBCCDD; 0xAA]));
+    ((false, 0x1111), (7, true, false, 0), (0x11, [false; true], [false; false], [0xBBCCDD; 0xAA]));
+    ((false, 0x111111), (4, false, false, 0), (0x34, [false; false], [false; false], [0xBBCCDD; 0xAA]));
+    ((true, 0x34111111), (0, false, false, 0), (0, [false; false], [false; false], [0xBBCCDD; 0xAA]));
+    ((false, 0x34111111), (0, false, false, 0), (0, [false; false], [false; false], [0xBBCCDD; 0xAA])) ].
+Proof. vm_compute. reflexivity. Qed.
+
+(* and the right-hand sides of the theorems' conclusions, for these instances *)
+Example C10_mux_nonvacuous_rhs :
+  assemble 8 24 (fun j => lane mx_bc (0 + j) 0xAABBCCDD) 3 = 0xBBCCDD /\
+  assemble 8 8 (fun j => lane mx_bc (3 + j) 0xAABBCCDD) 1 = 0xAA /\
+  map (fun i => word 8 24 (i - 0) (trunc 24 (nth 0 (x_rvals (mx_tr 7)) 0))) [0; 1; 2] = [0x11; 0x11; 0x11] /\
+  word 8 8 (3 - 3) (trunc 8 (nth 1 (x_rvals (mx_tr 10)) 0)) = 0x34 /\
+  map (fun i => lane mx_bc i 0x34111111) [0; 1; 2; 3] = [0x11; 0x11; 0x11; 0x34].
 Proof. vm_compute. repeat split; reflexivity. Qed.
